@@ -27,7 +27,7 @@ RULE = (
 ASSUMPTIONS = [
     "transform-like blocks outside the ten list paths (stage transforms, variant blocks, and the data-transform positions that only the library's grammar, not Cobalt Strike, allows: http-get client id/output ...) are judged representation-tolerantly: every written item exactly once under its path, either as (keyword, bytes) or as keyword-suffixed key",
     "option and pair values are reported as written (raw literal text); list-path arguments decoded to bytes",
-    "builder cases use printable values without quotes/backslashes (literal spelling is C12's subject)",
+    "a str handed to the builder is literal text as written in a profile (escape sequences included), bytes are raw values; the spelling the builder chooses for bytes is C12's subject",
 ]
 REQUIRED_MONITORS = ["dict.model", "history.tracks", "builder.equal"]
 
@@ -118,7 +118,15 @@ def _kws(alt):
 SIMPLE = "abcdefghijklmnopqrstuvwxyzABCDEFGHIJKLMNOPQRSTUVWXYZ0123456789 /.:=-_%()*,+!@"
 
 
+_WRITTEN = [False]
+
+
 def _val(rng):
+    if _WRITTEN[0] and rng.random() < 0.5:
+        # literal text "as written in a profile", escape sequences included: what a str argument of the builder is taken to
+        # be (and what the dictionary view reports for scalar options)
+        data = b"".join(rng.choice([b'"', b"\\", b"'", b"a", b"\n", b";", b"x", b"\xff", b"\x00", b" ", b"{", b"#"]) for _ in range(rng.randrange(0, 8)))
+        return PR.lit_encode(data, rng, hostile=True).replace("\n", "\\n").replace("\r", "\\r")
     return "".join(rng.choice(SIMPLE) for _ in range(rng.randrange(0, 16)))
 
 
@@ -199,15 +207,15 @@ def program_statements(nodes, path=()):
     out = []
     for kind, alias, kws, body in nodes:
         if kind == "option":
-            out.append({"path": path, "kw": [alias], "args": [body[0]], "vals": [body[0].encode()], "rule": "value"})
+            out.append({"path": path, "kw": [alias], "args": [body[0]], "vals": [PR.lit_decode(body[0])], "rule": "value"})
         elif kind == "stmt":
             k = [x for x in kws if x != "set"]
-            out.append({"path": path, "kw": k, "args": list(body), "vals": [b.encode() for b in body],
+            out.append({"path": path, "kw": k, "args": list(body), "vals": [PR.lit_decode(b) for b in body],
                         "rule": "execute_options" if path and path[-1] == "execute" else "stage_transform" if path and path[-1].startswith("transform-") else "x"})
         elif kind == "dt":
             p = path + tuple(kws)
             for a, kw, v in body:
-                out.append({"path": p, "kw": [kw], "args": [] if v is None else [v], "vals": [] if v is None else [v.encode()], "rule": "transform_statement"})
+                out.append({"path": p, "kw": [kw], "args": [] if v is None else [v], "vals": [] if v is None else [PR.lit_decode(v)], "rule": "transform_statement"})
         else:
             out += program_statements(body, path + tuple(kws))
     return out
@@ -573,10 +581,15 @@ def run_shard(shard, ctx):
             check_case({"op": "history", "text": PR.render(s.tokens, rng, noise=False), "statements": s.statements, "start": rng.choice(["parsed", "parsed", "empty"]),
                         "mods": mods, "seed": rng.getrandbits(32)}, ctx)
     elif kind == "builder":
-        for _ in range(shard["n"]):
+        for i in range(shard["n"]):
             if ctx.out_of_time():
                 break
-            check_case({"op": "builder", "program": gen_program(rng)}, ctx)
+            _WRITTEN[0] = i % 3 == 0  # every third program uses str values with quotes, backslashes and escape sequences
+            try:
+                prog = gen_program(rng)
+            finally:
+                _WRITTEN[0] = False
+            check_case({"op": "builder", "program": prog}, ctx)
     elif kind == "gate":
         alpha = [b"\\", b"'", b'"', b"a", b"\n", b";", b"\xff", b"\x00", b"x", b"{"]
         for i in range(60):
